@@ -272,7 +272,18 @@ def scratch_copy(repo):
     d = os.path.join(base, f"verif-scratch-{os.getpid()}-{int(time.time()*1000) % 100000}")
     os.makedirs(d, exist_ok=True)
     subprocess.run(["rsync", "-a", "--exclude", "target", "--exclude", ".git", repo.rstrip("/") + "/", d + "/repo/"], check=True)
+    freshen(d + "/repo")
     return d
+
+
+def freshen(tree):
+    """cargo decides freshness by mtime and keys workspace members independently of the absolute path of the
+    workspace, so a build of another scratch copy (a mutant, a seeded change) in the shared target directory
+    would be taken for an up-to-date build of this copy whenever this copy's files are *older* (rsync -a keeps
+    mtimes).  Observed: the witness search of the unchanged tree ran against the library of the previous,
+    patched copy.  Every source file of the copy therefore gets the current time."""
+    subprocess.run("find . \\( -name '*.rs' -o -name 'Cargo.toml' -o -name '*.json' \\) -not -path './target/*' -exec touch {} +",
+                   shell=True, cwd=tree, check=True)
 
 
 def run_witness(u, repo, bdir):
